@@ -3035,7 +3035,11 @@ def concrete_values_from_iterable(
             return [pair.key for pair in value.kv_pairs]
     elif isinstance(value, KnownValue):
         if isinstance(value.val, (str, bytes, range)):
-            if len(value.val) < ITERATION_LIMIT:
+            try:
+                is_short = len(value.val) < ITERATION_LIMIT
+            except OverflowError:  # len(range(10**30)) does not fit in a C ssize_t
+                is_short = False
+            if is_short:
                 return [KnownValue(c) for c in value.val]
             is_nonempty = True
     elif value is NO_RETURN_VALUE:
